@@ -13,7 +13,9 @@
 //
 // Result: "ok <bytes PutB'ed> <listing>" where listing = ';'-list (sorted) of <pathHex>=f.<size>.<md5>
 // and <pathHex>=d (empty directories only), read back from the returned manifest through a
-// collection filesystem over the same fake Keep store; or "err <class>"; or "panic <class>".
+// collection filesystem over the same fake Keep store; or "err <class>"; or "panic <class>"; or
+// "diverge" (the plan grew beyond 2000 directories: unbounded recursion, stopped by the watchdog);
+// or "skip-config".
 package crunchrun
 
 import (
@@ -33,6 +35,7 @@ import (
 	"sync"
 	"syscall"
 	"testing"
+	"time"
 
 	"git.arvados.org/arvados.git/sdk/go/arvados"
 	"git.arvados.org/arvados.git/sdk/go/arvadosclient"
@@ -319,9 +322,8 @@ func verifC17Case(line string) (out string) {
 		// Configurations outside the property's quantifier that the model does not cover (see
 		// notes/C17.md): a tmp mount other than the output directory (walkHostFS computes its host
 		// path from the output directory: slice-bounds panic or another file; below the output path
-		// it also restarts the symlink budget, so a link cycle recurses until the stack limit), a
-		// writable collection mount, a mount above the output path (same unbounded recursion).
-		if (m.Kind == "tmp" && mnt != ctrOut) || (m.Kind == "collection" && m.Writable) || strings.HasPrefix(ctrOut, mnt+"/") {
+		// it also restarts the symlink budget), a writable collection mount.
+		if (m.Kind == "tmp" && mnt != ctrOut) || (m.Kind == "collection" && m.Writable) {
 			return "skip-config"
 		}
 	}
@@ -376,7 +378,49 @@ func verifC17Case(line string) (out string) {
 		secretMounts:  secrets,
 		logger:        verifC17Logger{},
 	}
-	txt, err := cp.Copy()
+	// Copy runs in its own goroutine under a watchdog: a collection mounted above the output path
+	// makes walkMountsBelow re-enter the output directory with a fresh symlink budget, so a link
+	// back into that collection recurses without bound (finding F17c). The watchdog notices the
+	// runaway plan and removes the host tree; the next Lstat fails and the recursion unwinds.
+	type copyResult struct {
+		txt string
+		err error
+		pan interface{}
+	}
+	resc := make(chan copyResult, 1)
+	go func() {
+		defer func() {
+			if r := recover(); r != nil {
+				resc <- copyResult{pan: r}
+			}
+		}()
+		txt, err := cp.Copy()
+		resc <- copyResult{txt: txt, err: err}
+	}()
+	var res copyResult
+	diverged := false
+	start := time.Now()
+	tick := time.NewTicker(10 * time.Millisecond)
+waiting:
+	for {
+		select {
+		case res = <-resc:
+			break waiting
+		case <-tick.C:
+			if !diverged && (len(cp.dirs) > 2000 || len(cp.manifest) > 4<<20 || time.Since(start) > 40*time.Second) {
+				diverged = true
+				os.RemoveAll(root)
+			}
+		}
+	}
+	tick.Stop()
+	if diverged {
+		return "diverge"
+	}
+	if res.pan != nil {
+		panic(res.pan)
+	}
+	txt, err := res.txt, res.err
 	if err != nil {
 		return verifC17ErrClass(err)
 	}
